@@ -30,8 +30,7 @@ _CONTROL_STRUCTURES = (
     ast.With,
     ast.AsyncWith,
     ast.Try,
-    ast.Match,
-    ast.match_case,
+    ast.Match,  # one level for the statement, as for a TypeScript switch or a Rust match
 )
 
 
